@@ -119,6 +119,15 @@ SPECS = [
                   "not is_exact(val(1), str) or S() == S0() + 'A{-}-' + text(val(1)) + 'B'"],
          raises={'*': {'ensures': ["raised('e1') or ext_count() > 0 or translate_calls() > 0"]}},
          serves=['C06', 'C20']),
+    dict(id='S-Cdata-entity',
+         # "In element text, quoted attribute values, comments and CDATA sections ... character entities
+         # in it are decoded before evaluation": inside ${...} of a CDATA section too (the section's text
+         # itself is copied as written)
+         text="A<![CDATA[&lt;${e1 if 1 &lt; 2 else e2}]]>B",
+         ensures=["evals(1) == 1 and evals(2) == 0",
+                  "S().startswith(S0() + 'A<![CDATA[&lt;')", "S().endswith(']]>B')"],
+         raises={'*': {'ensures': ["raised('e1') or ext_count() > 0 or translate_calls() > 0"]}},
+         serves=['C06']),
     dict(id='S-Interp-off', text='A<p meta:interpolation="off">${e1} $ {x}</p>B',
          ensures=["evals(1) == 0", "S() == S0() + 'A<p>${e1} $ {x}</p>B'"],
          serves=['C06']),
